@@ -269,3 +269,1036 @@ def translate(ctx):
     ctx.gen = g
     changed = vlib.write_if_changed(GENERATED, render_generated(g))
     ctx.count("generated-file-changed", 1 if changed else 0)
+
+
+# --------------------------------------------------------------------------------------------
+# the real pipeline on a scalar expression
+# --------------------------------------------------------------------------------------------
+
+BACKENDS: Dict[str, Dict[str, str]] = {
+    "atlas": {"mod": "func_adl_xAOD.atlas.xaod.executor", "cls": "atlas_xaod_executor", "coll": 'e.Jets("AntiKt4EMTopoJets")',
+              "elem": "xAOD::Jet", "main": "query.cxx", "sep": "->"},
+    "cms_aod": {"mod": "func_adl_xAOD.cms.aod.executor", "cls": "cms_aod_executor", "coll": 'e.Muons("muons")',
+                "elem": "reco::Muon", "main": "Analyzer.cc", "sep": "."},
+    "cms_miniaod": {"mod": "func_adl_xAOD.cms.miniaod.executor", "cls": "cms_miniaod_executor", "coll": 'e.Muons("slimmedMuons")',
+                    "elem": "pat::Muon", "main": "Analyzer.cc", "sep": "."},
+}
+TYPED_METHODS = {"nI": "int", "xF": "float"}  # declared to the translator through MetaData
+DOUBLE_METHODS = ["pt", "eta", "phi"]  # undeclared methods default to double
+
+# abstract expressions (python side):  ("m", name) | ("i", n) | ("f", x) | ("s", text) | ("call", f, [args]) | ("bin", op, l, r) | ("un", op, e)
+PY_BIN = {"Add": "+", "Sub": "-", "Mult": "*", "Div": "/", "Mod": "%", "Pow": "**", "MatMult": "@"}
+PY_UN = {"USub": "-", "UAdd": "+", "Not": "not ", "Invert": "~"}
+
+
+def to_src(e) -> str:
+    k = e[0]
+    if k == "m":
+        return f"j.{e[1]}()"
+    if k == "i":
+        return str(e[1])
+    if k == "f":
+        return repr(float(e[1]))
+    if k == "s":
+        return json.dumps(e[1])
+    if k == "call":
+        return f"{e[1]}({', '.join(to_src(a) for a in e[2])})"
+    if k == "bin":
+        return f"({to_src(e[2])} {PY_BIN[e[1]]} {to_src(e[3])})"
+    if k == "un":
+        return f"({PY_UN[e[1]]}{to_src(e[2])})"
+    raise ValueError(e)
+
+
+def leaf_cpp(e, sep: str) -> Tuple[str, str]:
+    k = e[0]
+    if k == "m":
+        return (f"i_obj{sep}{e[1]}()", TYPED_METHODS.get(e[1], "double"))
+    if k == "i":
+        return (str(e[1]), "int")
+    if k == "f":
+        return (str(float(e[1])), "double")
+    if k == "s":
+        return ('"' + e[1] + '"', "string")
+    raise ValueError(e)
+
+
+def to_json(e, sep: str) -> Dict[str, Any]:
+    k = e[0]
+    if k in ("m", "i", "f", "s"):
+        t, ty = leaf_cpp(e, sep)
+        return {"k": "leaf", "t": t, "ty": ty}
+    if k == "call":
+        return {"k": "call", "f": e[1], "args": [to_json(a, sep) for a in e[2]]}
+    if k == "bin":
+        return {"k": "bin", "op": e[1], "l": to_json(e[2], sep), "r": to_json(e[3], sep)}
+    if k == "un":
+        return {"k": "un", "op": e[1], "e": to_json(e[2], sep)}
+    raise ValueError(e)
+
+
+def leaves_of(e, sep: str) -> List[List[str]]:
+    out: List[List[str]] = []
+
+    def go(x):
+        if x[0] in ("m", "i", "f", "s"):
+            p = list(leaf_cpp(x, sep))
+            if p not in out:
+                out.append(p)
+        elif x[0] == "call":
+            for a in x[2]:
+                go(a)
+        elif x[0] == "bin":
+            go(x[2]), go(x[3])
+        elif x[0] == "un":
+            go(x[2])
+
+    go(e)
+    return out
+
+
+def called(e) -> List[str]:
+    if e[0] == "call":
+        return [e[1]] + [n for a in e[2] for n in called(a)]
+    if e[0] == "bin":
+        return called(e[2]) + called(e[3])
+    if e[0] == "un":
+        return called(e[2])
+    return []
+
+
+def ops_of(e) -> List[str]:
+    if e[0] == "call":
+        return [n for a in e[2] for n in ops_of(a)]
+    if e[0] == "bin":
+        return [e[1]] + ops_of(e[2]) + ops_of(e[3])
+    if e[0] == "un":
+        return [e[1]] + ops_of(e[2])
+    return []
+
+
+def size(e) -> int:
+    if e[0] == "call":
+        return 1 + sum(size(a) for a in e[2])
+    if e[0] == "bin":
+        return 1 + size(e[2]) + size(e[3])
+    if e[0] == "un":
+        return 1 + size(e[2])
+    return 1
+
+
+def static_int(e) -> bool:
+    """python-level: the value is an int (so that C++ sees an integer too)"""
+    if e[0] == "i":
+        return True
+    if e[0] == "m":
+        return TYPED_METHODS.get(e[1]) == "int"
+    if e[0] == "bin":
+        return e[1] in ("Add", "Sub", "Mult", "Mod") and static_int(e[2]) and static_int(e[3])
+    if e[0] == "un":
+        return static_int(e[2])
+    return False
+
+
+def in_defect_exclusion(e) -> Optional[str]:
+    """The inputs the `_partial` theorems exclude because the code is known to be wrong there
+    (each has a `_counterexample` theorem and a listed finding).  Syntactic, independent of the table."""
+    names = called(e)
+    if "round" in names:
+        return "round"
+    if "remquo" in names:
+        return "remquo"
+    if "Div" in ops_of(e):
+        if "ilogb" in names:
+            return "ilogb-in-division"
+
+        def abs_int(x) -> bool:
+            if x[0] == "call":
+                return (x[1] == "abs" and len(x[2]) > 0 and all(static_int(a) for a in x[2])) or any(abs_int(a) for a in x[2])
+            if x[0] == "bin":
+                return abs_int(x[2]) or abs_int(x[3])
+            if x[0] == "un":
+                return abs_int(x[2])
+            return False
+
+        if abs_int(e):
+            return "abs-of-int-in-division"
+    return None
+
+
+_EXE_CACHE: Dict[str, Any] = {}
+
+
+def _executor(backend: str):
+    import importlib
+
+    b = BACKENDS[backend]
+    if backend not in _EXE_CACHE:
+        _EXE_CACHE[backend] = getattr(importlib.import_module(b["mod"]), b["cls"])
+    return _EXE_CACHE[backend]()
+
+
+def query_text(backend: str, expr_src: str) -> str:
+    b = BACKENDS[backend]
+    ds = "EventDataset()"
+    for m, t in TYPED_METHODS.items():
+        ds = f"MetaData({ds}, {{'metadata_type': 'add_method_type_info', 'type_string': '{b['elem']}', 'method_name': '{m}', 'return_type': '{t}'}})"
+    return f"Select(SelectMany({ds}, lambda e: {b['coll']}), lambda j: {expr_src})"
+
+
+INCLUDE_RE = re.compile(r'^\s*#include\s*["<]([^">]+)[">]', re.M)
+ASSIGN_RE = re.compile(r"^\s*(_col\w+)\s*=\s*(.*?);\s*$", re.M)
+
+
+def run_pipeline(backend: str, expr_src: str) -> Dict[str, Any]:
+    """apply_ast_transformations + write_cpp_files on `Select(SelectMany(ds, e -> coll), j -> expr)`;
+    returns {"text","declTy","includes"} read from the generated files, or {"err": class, "msg": …}."""
+    import logging
+
+    logging.disable(logging.CRITICAL)
+    b = BACKENDS[backend]
+    d = Path(tempfile.mkdtemp(prefix="c12_"))
+    try:
+        a = ast.parse(query_text(backend, expr_src), mode="eval").body
+        exe = _executor(backend)
+        a2 = exe.apply_ast_transformations(a)
+        info = exe.write_cpp_files(a2, d)
+        files = {f: (d / f).read_text() for f in info.all_filenames if (d / f).is_file()}
+    except Exception as ex:  # the translator's refusal (or crash) is an observation
+        return {"err": type(ex).__name__, "msg": str(ex)[:200]}
+    finally:
+        shutil.rmtree(d, ignore_errors=True)
+        logging.disable(logging.NOTSET)
+    main = files.get(b["main"], "")
+    assigns = ASSIGN_RE.findall(main)
+    if len(assigns) != 1:
+        return {"err": "Unreadable", "msg": f"{len(assigns)} assignments to an output column in {b['main']}"}
+    var, rhs = assigns[0]
+    decl = None
+    for f, t in files.items():
+        m = re.search(r"^\s*([A-Za-z_][\w:<>, ]*?)\s+" + re.escape(var) + r"\s*;", t, re.M)
+        if m:
+            decl = m.group(1).strip()
+            break
+    if decl is None:
+        return {"err": "Unreadable", "msg": f"no declaration of {var}"}
+    return {"text": re.sub(r"\bi_obj\d+", "i_obj", rhs), "declTy": decl, "includes": INCLUDE_RE.findall(main)}
+
+
+_BASELINE: Dict[str, List[str]] = {}
+
+
+def added_includes(backend: str, includes: List[str]) -> List[str]:
+    if backend not in _BASELINE:
+        r = run_pipeline(backend, "j.pt()")
+        if "err" in r:
+            raise vlib.InternalError(f"baseline query failed on {backend}: {r}")
+        _BASELINE[backend] = r["includes"]
+    base = _BASELINE[backend]
+    return sorted(set(i for i in includes if i not in base))
+
+
+def observe(backend: str, e) -> Dict[str, Any]:
+    r = run_pipeline(backend, to_src(e))
+    if "err" in r:
+        return r
+    return {"text": r["text"], "declTy": r["declTy"], "incs": added_includes(backend, r["includes"])}
+
+
+# --------------------------------------------------------------------------------------------
+# the function of that name: python references (C definitions where python has no such function)
+# --------------------------------------------------------------------------------------------
+
+
+def _c_round(x: float) -> float:
+    return math.copysign(math.floor(abs(x) + 0.5), x)
+
+
+def _fma(x, y, z) -> float:
+    return float(Fraction(x) * Fraction(y) + Fraction(z))
+
+
+REF = {
+    "sin": math.sin, "cos": math.cos, "tan": math.tan, "acos": math.acos, "asin": math.asin, "atan": math.atan, "atan2": math.atan2,
+    "sinh": math.sinh, "cosh": math.cosh, "tanh": math.tanh, "asinh": math.asinh, "acosh": math.acosh, "atanh": math.atanh,
+    "exp": math.exp, "ldexp": lambda x, n: math.ldexp(x, int(n)), "log": math.log, "ln": math.log, "log10": math.log10,
+    "exp2": lambda x: 2.0 ** x, "expm1": math.expm1, "ilogb": lambda x: float(math.frexp(x)[1] - 1), "log1p": math.log1p, "log2": math.log2,
+    "scalbn": lambda x, n: math.ldexp(x, int(n)), "scalbln": lambda x, n: math.ldexp(x, int(n)),
+    "pow": math.pow, "sqrt": math.sqrt, "cbrt": lambda x: math.copysign(abs(x) ** (1.0 / 3.0), x), "hypot": math.hypot,
+    "erf": math.erf, "erfc": math.erfc, "tgamma": math.gamma, "lgamma": math.lgamma,
+    "ceil": lambda x: float(math.ceil(x)), "floor": lambda x: float(math.floor(x)), "fmod": math.fmod, "trunc": lambda x: float(math.trunc(x)),
+    "round": _c_round, "rint": lambda x: float(round(x)), "nearbyint": lambda x: float(round(x)), "remainder": math.remainder,
+    "copysign": math.copysign, "nan": lambda s: float("nan"), "nextafter": math.nextafter, "nexttoward": math.nextafter,
+    "fdim": lambda x, y: max(x - y, 0.0), "fmax": lambda x, y: max(x, y), "fmin": lambda x, y: min(x, y),
+    "fabs": math.fabs, "abs": abs, "fma": _fma,
+}
+if hasattr(math, "cbrt"):
+    REF["cbrt"] = math.cbrt
+
+# parameter kinds of the <cmath> signatures ("d" double, "i" int-valued, "s" string): what a query can pass by value
+PARAMS = {n: "d" for n in REF}
+PARAMS.update({n: "dd" for n in ["atan2", "pow", "hypot", "fmod", "remainder", "copysign", "nextafter", "nexttoward", "fdim", "fmax", "fmin"]})
+PARAMS.update({"ldexp": "di", "scalbn": "di", "scalbln": "di", "fma": "ddd", "nan": "s", "remquo": "ddp"})
+
+# sample points (pt, eta, phi) per argument domain
+GENERIC = [(0.3, 1.7, -2.5), (2.5, -0.75, 1.3), (10.0, 2.5, 0.5), (1.7, -2.5, 3.5)]
+DOMAIN = {
+    "unit": [(-0.9, 0.3, 0.0), (0.75, -0.5, 0.0), (0.0, 0.9, 0.0), (0.3, 0.3, 0.0)],
+    "ge1": [(1.0, 0.3, 0.0), (1.5, 0.3, 0.0), (10.0, 0.3, 0.0)],
+    "pos": [(0.3, 1.7, 0.0), (1.0, 2.5, 0.0), (2.5, 0.5, 0.0), (10.0, 3.0, 0.0), (0.001, 1.0, 0.0), (1000.0, 2.0, 0.0)],
+    "gtm1": [(-0.5, 0.0, 0.0), (0.3, 0.0, 0.0), (2.5, 0.0, 0.0)],
+    "gamma": [(0.5, 0.0, 0.0), (1.5, 0.0, 0.0), (4.2, 0.0, 0.0), (-1.5, 0.0, 0.0), (10.0, 0.0, 0.0)],
+    "round": [(2.5, 0.0, 0.0), (-2.5, 0.0, 0.0), (3.5, 0.0, 0.0), (1.3, 0.0, 0.0), (-1.7, 0.0, 0.0), (0.5, 0.0, 0.0), (-0.5, 0.0, 0.0), (4.0, 0.0, 0.0)],
+    "pair": [(2.5, 1.7, 0.3), (-2.5, 1.7, -1.0), (7.3, -2.0, 2.0), (0.3, 10.0, 0.5), (5.5, 2.0, -3.0), (-5.5, 2.0, 1.0)],
+    "powpos": [(2.5, 3.0, 0.0), (0.3, -1.7, 0.0), (10.0, 0.5, 0.0), (1.7, 2.0, 0.0)],
+}
+DOMAIN_OF = {"acos": "unit", "asin": "unit", "atanh": "unit", "acosh": "ge1", "log": "pos", "ln": "pos", "log10": "pos", "log2": "pos",
+             "sqrt": "pos", "ilogb": "pos", "log1p": "gtm1", "tgamma": "gamma", "lgamma": "gamma", "pow": "powpos",
+             "ceil": "round", "floor": "round", "trunc": "round", "round": "round", "rint": "round", "nearbyint": "round"}
+for _n, _p in PARAMS.items():
+    if _p in ("dd", "ddd") and _n not in DOMAIN_OF:
+        DOMAIN_OF[_n] = "pair"
+N_I, X_F = 3, 1.25  # values of the declared int / float methods in the mock
+
+
+def samples_for(e, tier: str) -> List[Tuple[float, float, float]]:
+    names = called(e)
+    pts: List[Tuple[float, float, float]] = []
+    if len(names) == 1:
+        pts = list(DOMAIN.get(DOMAIN_OF.get(names[0], ""), GENERIC))
+    else:
+        pts = list(GENERIC) + [(0.75, 0.3, -0.5), (1.5, 0.9, 0.25)]
+    return pts
+
+
+class Skip(Exception):
+    pass
+
+
+def py_eval(e, s: Tuple[float, float, float]):
+    """python numerics, every function read by its documented name"""
+    k = e[0]
+    if k == "m":
+        return {"pt": s[0], "eta": s[1], "phi": s[2], "nI": N_I, "xF": X_F}[e[1]]
+    if k in ("i", "f", "s"):
+        return e[1]
+    try:
+        if k == "call":
+            args = [py_eval(a, s) for a in e[2]]
+            if e[1] not in REF:
+                raise Skip()
+            return float(REF[e[1]](*args))
+        if k == "bin":
+            l, r = py_eval(e[2], s), py_eval(e[3], s)
+            if isinstance(l, str) or isinstance(r, str):
+                raise Skip()
+            v = {"Add": lambda: l + r, "Sub": lambda: l - r, "Mult": lambda: l * r, "Div": lambda: l / r, "Pow": lambda: l ** r}[e[1]]()
+            if isinstance(v, complex):
+                raise Skip()
+            return v
+        if k == "un":
+            v = py_eval(e[2], s)
+            return -v if e[1] == "USub" else +v
+    except (ValueError, OverflowError, ZeroDivisionError, KeyError, TypeError):
+        raise Skip()
+    raise Skip()
+
+
+MOCK = """#include <cstdio>
+%(includes)s
+struct Obj { double a, b, c; int n; float x;
+  double pt() const { return a; } double eta() const { return b; } double phi() const { return c; }
+  int nI() const { return n; } float xF() const { return x; } };
+%(funcs)s
+int main() {
+%(calls)s
+  return 0;
+}
+"""
+
+
+def gxx_eval(items: List[Dict[str, Any]], timeout: int = 300) -> Dict[int, Any]:
+    """items: {"id", "text", "declTy", "sep", "incs", "samples"} -> id -> [values] | {"compile": msg}.
+    Each expression is compiled as the translator wrote it, assigned to a variable of the declared
+    column type, against a stand-in for the loop variable, with exactly the include files the
+    translator added.  A case that does not compile is reported and the rest is compiled again."""
+    out: Dict[int, Any] = {}
+    todo = list(items)
+    d = Path(tempfile.mkdtemp(prefix="c12_gxx_"))
+    try:
+        for _round in range(12):
+            if not todo:
+                break
+            incs: List[str] = []
+            for it in todo:
+                for i in it["incs"]:
+                    if i not in incs:
+                        incs.append(i)
+            funcs, calls = [], []
+            for it in todo:
+                obj = "const Obj* i_obj = &o;" if it["sep"] == "->" else "const Obj& i_obj = o;"
+                funcs.append(f"#line {100000 + it['id']} \"c12case\"\nstatic double f{it['id']}(const Obj& o) {{ {obj} {it['declTy']} r = {it['text']}; return (double) r; }}")
+                for j, s in enumerate(it["samples"]):
+                    calls.append(f"  {{ Obj o{{{s[0]!r}, {s[1]!r}, {s[2]!r}, {N_I}, {X_F!r}f}}; printf(\"{it['id']} {j} %a\\n\", f{it['id']}(o)); }}")
+            src = MOCK % {"includes": "\n".join(f'#include "{i}"' for i in incs) or "// no include added", "funcs": "\n".join(funcs),
+                          "calls": "  setvbuf(stdout, 0, _IOLBF, 0);\n" + "\n".join(calls)}
+            (d / "t.cc").write_text(src)
+            p = subprocess.run(["g++", "-std=c++17", "-O0", "-w", "-o", str(d / "t"), str(d / "t.cc")], capture_output=True, text=True, timeout=timeout)
+            if p.returncode != 0:
+                bad = set()
+                for m in re.finditer(r"c12case:(\d+):\d+: error: (.*)", p.stderr):
+                    cid = int(m.group(1)) - 100000
+                    if cid not in bad:
+                        bad.add(cid)
+                        out[cid] = {"compile": m.group(2)[:200]}
+                if not bad:
+                    raise vlib.InternalError("g++ failed outside the generated expressions: " + p.stderr[:500])
+                todo = [it for it in todo if it["id"] not in bad]
+                continue
+            r = subprocess.run([str(d / "t")], capture_output=True, text=True, timeout=timeout)
+            vals: Dict[int, Dict[int, float]] = {}
+            for l in r.stdout.splitlines():
+                parts = l.split()
+                if len(parts) != 3:
+                    continue
+                a, b, c = parts
+                c = c.lower()
+                v = float("nan") if "nan" in c else (float("inf") if c == "inf" else (float("-inf") if c == "-inf" else float.fromhex(c)))
+                vals.setdefault(int(a), {})[int(b)] = v
+            rest = []
+            died = False
+            for it in todo:
+                got = vals.get(it["id"], {})
+                if died:
+                    rest.append(it)
+                elif len(got) == len(it["samples"]):
+                    out[it["id"]] = [got[j] for j in range(len(it["samples"]))]
+                elif r.returncode != 0:
+                    out[it["id"]] = {"compile": f"the compiled program died (status {r.returncode}) while evaluating this expression"}
+                    died = True
+                else:
+                    out[it["id"]] = [got.get(j) for j in range(len(it["samples"]))]
+            todo = rest
+    finally:
+        shutil.rmtree(d, ignore_errors=True)
+    return out
+
+
+def close(a: float, b: float, tol: float = 1e-9) -> bool:
+    if a is None or b is None:
+        return False
+    if math.isnan(a) or math.isnan(b):
+        return math.isnan(a) and math.isnan(b)
+    if math.isinf(a) or math.isinf(b):
+        return a == b
+    return abs(a - b) <= tol * max(1.0, abs(a), abs(b))
+
+
+# --------------------------------------------------------------------------------------------
+# generators
+# --------------------------------------------------------------------------------------------
+
+D_LEAVES = [("m", "pt"), ("m", "eta"), ("m", "phi")]
+
+
+def call_of(f: str, variant: int = 0):
+    args = []
+    di = 0
+    for kch in PARAMS.get(f, "d"):
+        if kch == "d":
+            args.append(D_LEAVES[di % 3])
+            di += 1
+        elif kch == "i":
+            args.append(("i", 3) if variant == 0 else ("m", "nI"))
+        elif kch == "s":
+            args.append(("s", ""))
+        elif kch == "p":
+            args.append(("i", 0))
+    return ("call", f, args)
+
+
+CONTEXTS = [
+    ("alone", lambda F: F),
+    ("times2plus1", lambda F: ("bin", "Add", ("bin", "Mult", F, ("i", 2)), ("i", 1))),
+    ("half", lambda F: ("bin", "Div", F, ("i", 2))),
+    ("one-minus", lambda F: ("bin", "Sub", ("i", 1), F)),
+    ("negated", lambda F: ("un", "USub", F)),
+    ("squared", lambda F: ("bin", "Pow", F, ("i", 2))),
+    ("argument", lambda F: ("call", "atan", [F])),
+    ("plus-call", lambda F: ("bin", "Add", F, ("call", "cos", [("m", "eta")]))),
+    ("int-and-float-operands", lambda F: ("bin", "Mult", ("bin", "Add", F, ("m", "nI")), ("m", "xF"))),
+    ("over-float", lambda F: ("bin", "Div", F, ("f", 0.5))),
+    ("beside-int-division", lambda F: ("bin", "Add", F, ("bin", "Div", ("i", 1), ("i", 2)))),
+]
+
+
+def random_expr(rng, names: List[str], depth: int, want_double: bool = True):
+    r = rng.random()
+    if depth <= 0 or r < 0.18:
+        c = rng.random()
+        if c < 0.6:
+            return rng.choice(D_LEAVES)
+        if c < 0.75:
+            return ("f", rng.choice([0.5, 1.5, 2.0, 0.25, 3.0]))
+        if c < 0.9:
+            return ("i", rng.choice([1, 2, 3, 4, 7]))
+        return ("m", "nI")
+    if r < 0.62:
+        f = rng.choice(names)
+        args = []
+        for kch in PARAMS.get(f, "d"):
+            if kch == "d":
+                args.append(random_expr(rng, names, depth - 1))
+            elif kch == "i":
+                args.append(rng.choice([("i", 3), ("i", 1), ("m", "nI"), ("un", "USub", ("i", 2))]))
+            elif kch == "s":
+                args.append(("s", ""))
+        return ("call", f, args)
+    if r < 0.92:
+        op = rng.choice(["Add", "Sub", "Mult", "Div", "Add", "Mult", "Pow"])
+        l = random_expr(rng, names, depth - 1)
+        if op == "Pow":
+            return ("bin", "Pow", l, ("i", rng.choice([2, 3])))
+        rr = random_expr(rng, names, depth - 1)
+        if rng.random() < 0.06 and l[0] == "call":
+            rr = ("m", "xF")
+        return ("bin", op, l, rr)
+    return ("un", rng.choice(["USub", "USub", "UAdd"]), random_expr(rng, names, depth - 1))
+
+
+def odd_expr(rng, names: List[str]):
+    """inputs outside the documented fragment: the refusals and the merely-accepted"""
+    F = call_of(rng.choice(names))
+    k = rng.randrange(10)
+    if k == 0:
+        return ("call", rng.choice(["frexp", "modf", "lround", "llrint", "foo", "Sin", "math_sin", "sign"]), [("m", "pt")])
+    if k == 1:
+        return ("bin", "Add", F, ("call", rng.choice(["frexp", "foo"]), [("m", "pt")]))
+    if k == 2:
+        return ("call", rng.choice(["ast", "functions_to_replace"]), [F])
+    if k == 3:
+        return ("bin", "Add", ("s", "a"), ("i", 1))
+    if k == 4:
+        return ("bin", "Mult", F, ("s", ""))
+    if k == 5:
+        return ("bin", "Mod", ("bin", "Mult", F, ("i", 2)), ("i", 2))
+    if k == 6:
+        return ("un", "Not", F)
+    if k == 7:
+        return ("bin", "MatMult", F, ("i", 2))
+    if k == 8:
+        return ("un", "Invert", F)
+    return ("call", rng.choice(names), [("call", "foo", [("m", "pt")]), ("bin", "Add", ("s", "a"), ("i", 1))])
+
+
+def main_cases(ctx, g) -> List[Tuple[str, str, Any]]:
+    """(stream, backend, expr)"""
+    names = [n for n in g["readme"] if n in REF]
+    usable = [n for n in names if n not in ("round", "remquo")]
+    backs = list(BACKENDS)
+    out: List[Tuple[str, str, Any]] = []
+    for n in names:
+        for cname, mk in CONTEXTS:
+            variants = [0, 1] if "i" in PARAMS.get(n, "d") and cname in ("alone", "times2plus1") else [0]
+            for v in variants:
+                e = mk(call_of(n, v))
+                for b in backs:
+                    out.append(("row:" + cname, b, e))
+    # abs / pow applied to integers outside division: still exact
+    for e in [("call", "abs", [("un", "USub", ("i", 3))]), ("bin", "Mult", ("call", "abs", [("m", "nI")]), ("i", 2)),
+              ("call", "pow", [("i", 2), ("i", 3)]), ("bin", "Div", ("call", "pow", [("i", 2), ("i", 3)]), ("i", 3)),
+              ("bin", "Div", ("call", "fmax", [("i", 1), ("i", 2)]), ("i", 4))]:
+        for b in backs:
+            out.append(("int-arguments", b, e))
+    nrand, nodd, depth = (250, 60, 3) if ctx.tier == "quick" else (4000, 600, 5)
+    for i in range(nrand):
+        e = random_expr(ctx.rng, usable, ctx.rng.choice(range(1, depth + 1)))
+        out.append(("random", backs[i % 3], e))
+    for i in range(nodd):
+        out.append(("outside", backs[i % 3], odd_expr(ctx.rng, usable)))
+    return out
+
+
+def resolver_pool(ctx, g) -> List[str]:
+    pool: List[str] = []
+    ns = vars(live_module())
+    for n in (g["readme"] + [r["py"] for r in g["rows"]] + [r["py"].split(".")[-1] for r in g["rows"]] + g["locals"]
+              + [k for k in ns if not k.startswith("__")] + [k for k in dir(builtins) if not k.startswith("__")]
+              + ["frexp", "modf", "lround", "llround", "lrint", "llrint", "max", "min", "sum", "len", "Sin", "SIN", "sin_", "_sin", "fnc", "fnc_name", "math", "std", "cmath"]):
+        if re.fullmatch(r"[A-Za-z_][A-Za-z_0-9]*", n) and n not in ("True", "False", "None") and n not in pool:
+            pool.append(n)
+    letters = "abcdefghijklmnopqrstuvwxyz_"
+    for _ in range(60 if ctx.tier == "quick" else 600):
+        n = "".join(ctx.rng.choice(letters) for _ in range(ctx.rng.randint(1, 6)))
+        if re.fullmatch(r"[A-Za-z_][A-Za-z_0-9]*", n) and n not in pool and n not in ("True", "False", "None"):
+            try:
+                ast.parse(f"{n}(x)", mode="eval")
+            except SyntaxError:
+                continue
+            pool.append(n)
+    return pool
+
+
+def impl_resolve(name: str) -> Dict[str, Any]:
+    from func_adl_xAOD.common.cpp_functions import FunctionAST, find_known_functions
+
+    node = ast.parse(f"{name}(x)", mode="eval").body
+    try:
+        r = find_known_functions().visit(node)
+    except Exception as ex:
+        return {"err": type(ex).__name__}
+    if isinstance(r, ast.Call) and isinstance(r.func, FunctionAST):
+        return {"row": live_row_dict(None, r.func)}
+    return {"row": None}
+
+
+def live_row_dict(py: Optional[str], info) -> Dict[str, Any]:
+    inc = info.include_files
+    rt = info.cpp_return_type
+    ty = getattr(rt, "type", None)
+    d = {"cpp": info.cpp_name if type(info.cpp_name) is str else repr(info.cpp_name),
+         "includes": [i if type(i) is str else repr(i) for i in inc] if isinstance(inc, (list, tuple)) else [repr(inc)],
+         "ret": ty if type(ty) is str else repr(rt)}
+    if py is not None:
+        d["py"] = py
+    return d
+
+
+def live_rows() -> List[Dict[str, Any]]:
+    """the table as it is at run time (after every module of the package that may add rows was imported)"""
+    for b in BACKENDS.values():
+        __import__(b["mod"])
+    m = live_module()
+    return [live_row_dict(k if type(k) is str else repr(k), v) for k, v in m.functions_to_replace.items()]
+
+
+# --------------------------------------------------------------------------------------------
+# judging one expression on the real code
+# --------------------------------------------------------------------------------------------
+
+
+def judge(ctx, cases: List[Tuple[str, str, Any]], numeric: bool) -> List[Dict[str, Any]]:
+    """For each (stream, backend, expr): run the real pipeline, the model, the Spec on the real output and
+    (if `numeric`) the compiled expression against the function of that name.  Returns one record per case."""
+    recs = []
+    reqs = []
+    for stream, b, e in cases:
+        sep = BACKENDS[b]["sep"]
+        obs = observe(b, e)
+        j = to_json(e, sep)
+        recs.append({"stream": stream, "backend": b, "expr": e, "src": to_src(e), "obs": obs})
+        reqs.append({"op": "tr", "expr": j})
+        reqs.append({"op": "spec", "expr": j, "leaves": leaves_of(e, sep),
+                     "obs": None if "err" in obs else {"text": obs["text"], "declTy": obs["declTy"], "incs": obs["incs"]}})
+    ctx.check_time()
+    ans = ctx.driver(DRIVER, reqs)
+    items = []
+    for i, r in enumerate(recs):
+        r["model"], r["spec"] = ans[2 * i], ans[2 * i + 1]
+        r["numeric"] = None
+        if numeric and "bad" not in r["model"] and r["model"].get("documented") and "err" not in r["obs"] and r["spec"].get("holds"):
+            smp = samples_for(r["expr"], ctx.tier)
+            ref = []
+            for s in smp:
+                try:
+                    v = py_eval(r["expr"], s)
+                    ref.append(float(v) if abs(float(v)) < 1e15 or math.isinf(float(v)) else None)
+                except (Skip, OverflowError):
+                    ref.append(None)
+            keep = [k for k, v in enumerate(ref) if v is not None]
+            if keep:
+                r["numeric"] = {"samples": [smp[k] for k in keep], "expected": [ref[k] for k in keep]}
+                items.append({"id": i, "text": r["obs"]["text"], "declTy": r["obs"]["declTy"], "sep": BACKENDS[r["backend"]]["sep"],
+                              "incs": r["obs"]["incs"], "samples": r["numeric"]["samples"]})
+    if items:
+        # identical (text, type, includes, samples) are evaluated once
+        uniq: Dict[str, Dict[str, Any]] = {}
+        alias: Dict[int, int] = {}
+        for it in items:
+            k = json.dumps([it["text"], it["declTy"], it["sep"], it["incs"], it["samples"]])
+            if k not in uniq:
+                uniq[k] = it
+            alias[it["id"]] = uniq[k]["id"]
+        got = gxx_eval(list(uniq.values()))
+        ctx.count("g++:expressions-compiled", len(uniq))
+        for it in items:
+            recs[it["id"]]["numeric"]["got"] = got.get(alias[it["id"]])
+    return recs
+
+
+def numeric_failure(r) -> Optional[str]:
+    n = r.get("numeric")
+    if not n or "got" not in n:
+        return None
+    g = n["got"]
+    if isinstance(g, dict):
+        return "the emitted expression does not compile / run: " + g.get("compile", "?")
+    tol = 1e-9 if size(r["expr"]) <= 8 else 1e-6
+    for s, want, have in zip(n["samples"], n["expected"], g):
+        if not close(want, have, tol):
+            return f"at (pt, eta, phi) = {s} the generated C++ gives {have!r}, the function of that name gives {want!r}"
+    return None
+
+
+def canon_model(m: Dict[str, Any]) -> Dict[str, Any]:
+    if "ok" in m:
+        return {"text": m["ok"]["text"], "declTy": m["ok"]["ty"], "incs": sorted(m["ok"]["incs"])}
+    return {"err": m.get("err")}
+
+
+def canon_impl(o: Dict[str, Any]) -> Dict[str, Any]:
+    if "err" in o:
+        return {"err": o["err"]}
+    return {"text": o["text"], "declTy": o["declTy"], "incs": sorted(o["incs"])}
+
+
+HOW = ("python: a = ast.parse(\"Select(SelectMany(<dataset with add_method_type_info for nI:int, xF:float>, lambda e: <collection>), lambda j: <src>)\", mode='eval').body; "
+       "exe = <backend>_executor(); exe.write_cpp_files(exe.apply_ast_transformations(a), dir); read the assignment to the output column in query.cxx / Analyzer.cc; "
+       "or: ./check C12 --replay <this file>")
+
+
+def report(ctx, r, keyprefix: str = "emit") -> Optional[str]:
+    """violation (through ctx, so that listed findings are recognised) if the Spec or the numeric oracle fails"""
+    key = f"{keyprefix}:{r['backend']}:{r['src']}"
+    why = None
+    if "bad" in r["spec"]:
+        return None
+    if not r["spec"].get("holds", False):
+        why = r["spec"].get("why")
+    else:
+        why = numeric_failure(r)
+    if why is None:
+        return None
+    ctx.violation(key=key, what=f"{r['src']} on {r['backend']}: {why}", case={"backend": r["backend"], "expr": r["expr"], "src": r["src"]},
+                  observed={"translator": r["obs"], "numeric": r.get("numeric")}, how=HOW)
+    return why
+
+
+# --------------------------------------------------------------------------------------------
+# the check
+# --------------------------------------------------------------------------------------------
+
+
+def _tuplify(e):
+    if isinstance(e, list):
+        return tuple(_tuplify(x) if isinstance(x, list) and x and isinstance(x[0], str) and x[0] in ("m", "i", "f", "s", "call", "bin", "un") else
+                     ([_tuplify(y) for y in x] if isinstance(x, list) else x) for x in e)
+    return e
+
+
+def row_numeric(row: Dict[str, Any]) -> Optional[str]:
+    """compile `<cpp>(args)` alone and compare with the function named `py` at its sample points"""
+    name = row["py"].split(".")[-1]
+    if name not in REF or PARAMS.get(name, "d") in ("ddp",):
+        return None
+    e = call_of(name)
+    smp = samples_for(e, "thorough")
+    exp = []
+    for s in smp:
+        try:
+            exp.append(float(py_eval(e, s)))
+        except Skip:
+            exp.append(None)
+    keep = [k for k, v in enumerate(exp) if v is not None]
+    args = ",".join(leaf_cpp(a, "->")[0] for a in e[2])
+    got = gxx_eval([{"id": 0, "text": f"{row['cpp']}({args})", "declTy": row["ret"] if row["ret"] in ("int", "float", "double") else "double",
+                     "sep": "->", "incs": row["includes"], "samples": [smp[k] for k in keep]}]).get(0)
+    if isinstance(got, dict):
+        return f"{row['cpp']}({args}) with includes {row['includes']} does not compile: {got.get('compile')}"
+    for k, h in zip(keep, got):
+        if not close(exp[k], h):
+            return f"{row['cpp']}{smp[k][:len(e[2])]} = {h!r} but {name}{smp[k][:len(e[2])]} = {exp[k]!r}"
+    return None
+
+
+def check_table(ctx, g) -> None:
+    live = live_rows()
+    gen = [{"py": r["py"], "cpp": r["cpp"], "includes": r["includes"], "ret": r["ret"]} for r in g["rows"]]
+    # dict semantics: a repeated key keeps its first position and takes the last value
+    eff: Dict[str, Dict[str, Any]] = {}
+    for r in gen:
+        eff[r["py"]] = r if r["py"] not in eff else {**r}
+    ctx.count("table:rows", len(live))
+    if list(eff.values()) != live:
+        diff = [(a, b) for a, b in zip(list(eff.values()) + [None] * len(live), live + [None] * len(eff)) if a != b][:3]
+        ctx.disagreement("table: rows read from the source vs functions_to_replace at run time", {"first_differences": diff}, list(eff.values())[:0], live[:0])
+    ans = ctx.driver(DRIVER, [{"op": "row", "row": r} for r in live])
+    for r, a in zip(live, ans):
+        ctx.case({"row": r}, True, {"row": r, "spec": a})
+        if "bad" in a:
+            continue
+        if not a.get("holds", False):
+            why = [k for k in ("namesake", "header", "ret", "arith") if not a.get(k)]
+            num = None
+            try:
+                num = row_numeric(r)
+            except Exception as ex:  # the numeric illustration is best effort
+                num = f"(numeric illustration failed: {ex})"
+            ctx.violation(key="row:" + r["py"], what=f"table row {r['py']} -> {r['cpp']} ({r['includes']}, {r['ret']}) fails: {', '.join(why)}" + (f"; {num}" if num else ""),
+                          case={"row": r}, observed={"spec": a, "numeric": num},
+                          how="from func_adl_xAOD.common.cpp_functions import functions_to_replace; functions_to_replace[<py>]")
+    live_keys = [r["py"] for r in live]
+    for n in g["readme"]:
+        ctx.count("readme:names")
+        if n not in live_keys:
+            ctx.violation(key="readme:" + n, what=f"README lists the math function {n} but the table has no such key", case={"name": n}, observed={"keys": live_keys},
+                          how="README.md section Math vs func_adl_xAOD.common.cpp_functions.functions_to_replace")
+    if ctx.tier == "thorough":
+        # every live row, compiled on its own
+        for r in live:
+            if in_defect_exclusion(call_of(r["py"].split(".")[-1])):
+                continue
+            msg = row_numeric(r)
+            ctx.count("g++:rows-evaluated")
+            if msg:
+                ctx.violation(key="rownum:" + r["py"], what=f"table row {r['py']}: {msg}", case={"row": r}, observed=msg, how="compile std::<cpp>(args) with the row's include files")
+
+
+def check_resolver(ctx, g) -> None:
+    pool = resolver_pool(ctx, g)
+    ns = vars(live_module())
+    reqs = []
+    impl = []
+    for n in pool:
+        impl.append(impl_resolve(n))
+        b = binding_of(n, g["locals"], ns)
+        reqs.append({"op": "resolve", "name": n})
+        reqs.append({"op": "resolve", "name": n, "binding": {"k": b[0], "m": b[1] or ""}})
+    ans = ctx.driver(DRIVER, reqs)
+    live = {r["py"]: r for r in live_rows()}
+    readme = set(g["readme"])
+    accept_reqs, accept_names = [], []
+    for i, n in enumerate(pool):
+        m1, m2, im = ans[2 * i], ans[2 * i + 1], impl[i]
+        if "bad" in m1 or "bad" in m2:
+            continue
+
+        def strip(m):
+            if m.get("row"):
+                return {"row": {k: v for k, v in m["row"].items() if k != "py"}}
+            return m
+
+        ctx.count("resolver:" + ("replaced" if im.get("row") else ("error" if "err" in im else "left-alone")))
+        ctx.case({"resolve": n}, bool(im.get("row")) or "err" in im or n in readme, {"name": n, "implementation": im, "model": m1})
+        if strip(m1) != im:
+            ctx.disagreement("find_known_functions vs findKnown (generated eval scope)", {"name": n}, strip(m1), im)
+        if strip(m2) != im:
+            ctx.disagreement("find_known_functions vs fncName/lookup (binding computed by the harness)", {"name": n}, strip(m2), im)
+        if n in readme and not in_defect_exclusion(call_of(n) if n in PARAMS else ("call", n, [])):
+            # Spec on the implementation: the documented name reaches a row that is its namesake
+            if not im.get("row"):
+                ctx.violation(key="accept:" + n, what=f"the documented function {n} is not replaced by find_known_functions ({im})", case={"name": n}, observed=im,
+                              how=f"find_known_functions().visit(ast.parse('{n}(x)', mode='eval').body)")
+            else:
+                accept_reqs.append({"op": "row", "row": {"py": n, **im["row"]}})
+                accept_names.append((n, im))
+    for (n, im), a in zip(accept_names, ctx.driver(DRIVER, accept_reqs)):
+        if "bad" not in a and not a.get("namesake", False):
+            ctx.violation(key="accept:" + n, what=f"a call of the documented function {n} is replaced by {im['row']['cpp']}, which is not its namesake", case={"name": n}, observed=im,
+                          how=f"find_known_functions().visit(ast.parse('{n}(x)', mode='eval').body).func.cpp_name")
+
+
+def run(ctx):
+    g = getattr(ctx, "gen", None) or read_all()
+    if g["unrecognised"]:
+        ctx.notes.append("translator could not read: " + "; ".join(g["unrecognised"][:5]))
+    # 1. listed findings (still failing -> KNOWN-FINDING) and repaired ones (failing again -> violation)
+    known = [e for e in ctx.known_entries("known") if e.get("input", {}).get("expr")]
+    fixed = [e for e in ctx.known_entries("fixed") if e.get("input", {}).get("expr")]
+    recs = judge(ctx, [("finding", e["input"]["backend"], _tuplify(e["input"]["expr"])) for e in known + fixed], numeric=True)
+    for e, r in zip(known + fixed, recs):
+        ctx.count("stream:findings")
+        if e["status"] == "known":
+            if f"emit:{r['backend']}:{r['src']}" != e["key"]:
+                ctx.notes.append(f"known finding key {e['key']} does not match its input ({r['src']})")
+            report(ctx, r)
+        else:
+            why = report_why(r)
+            if why:
+                ctx.violation(key="regressed:" + e["key"], what=f"repaired defect is back: {r['src']} on {r['backend']}: {why}",
+                              case={"backend": r["backend"], "expr": r["expr"], "src": r["src"]}, observed=r["obs"], how=HOW)
+    # 2. the table as it is at run time
+    check_table(ctx, g)
+    # 3. name resolution
+    check_resolver(ctx, g)
+    # 4. corpus, then every documented function standalone and inside arithmetic, then random expressions
+    cases = [("corpus", c["backend"], _tuplify(c["expr"])) for c in vlib.corpus_cases(ID)]
+    for stream, b, e in main_cases(ctx, g):
+        ex = in_defect_exclusion(e)
+        if ex:
+            ctx.count("excluded-defect:" + ex)
+            continue
+        cases.append((stream, b, e))
+    recs = judge(ctx, cases, numeric=True)
+    for r in recs:
+        ctx.count("stream:" + r["stream"].split(":")[0])
+        ctx.count("backend:" + r["backend"])
+        ctx.count("impl:" + ("ok" if "err" not in r["obs"] else r["obs"]["err"]))
+        ctx.count("size:" + str(min(size(r["expr"]), 12)))
+        if "bad" in r["model"] or "bad" in r["spec"]:
+            continue
+        ctx.count("population:" + ("theorem-scope" if r["model"].get("scoped") else ("documented-beyond-scope" if r["model"].get("documented") else "outside-documented")))
+        if r.get("numeric") and "got" in r["numeric"]:
+            ctx.count("g++:cases-evaluated")
+            ctx.count("g++:sample-points", len(r["numeric"]["samples"]))
+        ctx.case({"b": r["backend"], "src": r["src"]}, len(called(r["expr"])) > 0 and r["model"].get("documented", False),
+                 {"backend": r["backend"], "query_expression": r["src"], "implementation": canon_impl(r["obs"]), "model": canon_model(r["model"]), "spec_on_implementation": r["spec"]})
+        report(ctx, r)
+        if canon_model(r["model"]) != canon_impl(r["obs"]):
+            ctx.disagreement("translation of a scalar expression: model tr vs apply_ast_transformations+write_cpp_files", {"backend": r["backend"], "src": r["src"], "expr": r["expr"]},
+                             canon_model(r["model"]), canon_impl(r["obs"]))
+        if "ok" in r["model"] and not r["model"].get("roundtrip", False):
+            ctx.disagreement("parseCpp (render term) = term", {"src": r["src"]}, r["model"], None)
+    ctx.extra_cov["exhaustive"] = False
+    ctx.extra_cov["exhaustive_part"] = ("every function of the README list x 11 arithmetic contexts x 3 backends (translation, Spec, compiled value at the sample points of its domain); "
+                                        "every row of the live table (row Spec); every python builtin, module global and documented name through the resolver")
+
+
+def report_why(r) -> Optional[str]:
+    if "bad" in r["spec"]:
+        return None
+    if not r["spec"].get("holds", False):
+        return r["spec"].get("why")
+    return numeric_failure(r)
+
+
+def subexprs(e) -> List[Any]:
+    out = []
+    if e[0] == "call":
+        for i, a in enumerate(e[2]):
+            if a[0] in ("call", "bin", "un"):
+                out.append(a)
+                for s in subexprs(a):
+                    out.append(("call", e[1], list(e[2][:i]) + [s] + list(e[2][i + 1:])))
+                out.append(("call", e[1], list(e[2][:i]) + [("m", "pt")] + list(e[2][i + 1:])))
+    elif e[0] == "bin":
+        out += [e[2], e[3]]
+        out += [("bin", e[1], s, e[3]) for s in subexprs(e[2])] + [("bin", e[1], e[2], s) for s in subexprs(e[3])]
+    elif e[0] == "un":
+        out += [e[2]] + [("un", e[1], s) for s in subexprs(e[2])]
+    return [x for x in out if x[0] in ("call", "bin", "un")]
+
+
+def shrink(ctx, r):
+    for _ in range(12):
+        cands = [c for c in subexprs(r["expr"]) if size(c) < size(r["expr"]) and not in_defect_exclusion(c)][:40]
+        if not cands:
+            break
+        rs = judge(ctx, [("shrink", r["backend"], c) for c in cands], numeric=True)
+        nxt = next((x for x in sorted(rs, key=lambda x: size(x["expr"])) if report_why(x)), None)
+        if nxt is None:
+            break
+        r = nxt
+    return r
+
+
+def search(ctx, broken):
+    """A larger sweep with the Spec on the implementation's output and the compiled values as the only judges."""
+    g = getattr(ctx, "gen", None) or read_all()
+    names = [n for n in g["readme"] if n in REF and n not in ("round", "remquo")]
+    cases = []
+    for i in range(1500):
+        e = random_expr(ctx.rng, names, ctx.rng.choice([1, 2, 3, 4]))
+        if not in_defect_exclusion(e):
+            cases.append(("search", list(BACKENDS)[i % 3], e))
+    recs = judge(ctx, cases, numeric=True)
+    bad = [r for r in recs if report_why(r)]
+    if not bad:
+        return None
+    r = shrink(ctx, min(bad, key=lambda x: size(x["expr"])))
+    key = f"emit:{r['backend']}:{r['src']}"
+    known = {e["key"] for e in ctx.known_entries("known")}
+    return {"key": key, "what": f"{r['src']} on {r['backend']}: {report_why(r)}", "case": {"backend": r["backend"], "expr": r["expr"], "src": r["src"]},
+            "observed": {"translator": r["obs"], "numeric": r.get("numeric")}, "known": key in known}
+
+
+def replay(ctx, rep) -> int:
+    case = rep.get("case") or {}
+    if "expr" in case:
+        r = judge(ctx, [("replay", case["backend"], _tuplify(case["expr"]))], numeric=True)[0]
+        print("query expression:", r["src"], " backend:", r["backend"])
+        print("translator:", r["obs"])
+        print("model:", canon_model(r["model"]))
+        print("spec on the translator's output:", r["spec"])
+        if r.get("numeric"):
+            print("compiled values:", r["numeric"].get("got"), " the function of that name:", r["numeric"]["expected"], " at", r["numeric"]["samples"])
+        why = report_why(r)
+        print("verdict:", why or "holds")
+        return 1 if why else 0
+    if "row" in case:
+        py = case["row"]["py"]
+        live = {r["py"]: r for r in live_rows()}
+        if py not in live:
+            print("row is gone:", py)
+            return 1
+        a = ctx.driver(DRIVER, [{"op": "row", "row": live[py]}])[0]
+        print("live row:", live[py])
+        print("row spec:", a)
+        print("numeric:", row_numeric(live[py]) or "agrees with the function of that name at the sample points")
+        return 0 if a.get("holds") else 1
+    if "name" in case:
+        im = impl_resolve(case["name"])
+        print("find_known_functions on", case["name"] + "(x):", im)
+        if not im.get("row"):
+            return 1
+        a = ctx.driver(DRIVER, [{"op": "row", "row": {"py": case["name"], **im["row"]}}])[0]
+        print("namesake:", a.get("namesake"))
+        return 0 if a.get("namesake") else 1
+    print("nothing to replay in", list(rep))
+    return 1
+
+
+THEOREMS = ["FaxVerif.C12." + t for t in [
+    "translator_complete", "documented_present", "keys_nodup", "namesake", "header", "return_double", "table_arith", "spec_row",
+    "return_type_faithful_partial", "return_type_faithful_counterexample", "callable_by_value_partial", "callable_by_value_counterexample",
+    "documented_accepted_partial", "documented_accepted_counterexample", "rows_reached_partial", "cfg_ok",
+    "resolver_spec", "replaced_iff", "call_emitted", "includes_of_called", "usable_in_arithmetic", "scoped_faithful", "refused_only_unresolved",
+    "computes_namesake_partial", "spec_partial", "documented_plain_partial", "documented_scoped_partial", "abs_scope", "documented_never_refused_partial",
+    "computes_namesake_counterexample_round", "computes_namesake_counterexample_remquo", "computes_namesake_counterexample_ilogb",
+    "computes_namesake_counterexample_abs_int",
+]]
+RULE = (
+    "(a) every row of functions_to_replace as it is at run time (row Spec: namesake, header, double, arithmetic type); (b) name resolution on every documented "
+    "name, table key, python builtin, module global of cpp_functions.py and random identifiers; (c) scalar query expressions "
+    "Select(SelectMany(ds, e -> collection), j -> EXPR) through apply_ast_transformations + write_cpp_files on the three backends: EXPR = every documented "
+    "function (arguments by parameter kind: method values, int literal / int method, string constant) standalone and in 10 arithmetic contexts "
+    "(*2+1, /2, 1-F, -F, F**2, atan(F), F+cos(eta), (F+int)*float, F/0.5, F+1/2), random expressions of depth <= 3 (quick) / 5 (thorough) over "
+    "documented functions, + - * / **, unary + -, int/float constants, double/int/float method values, and expressions outside the documented fragment "
+    "(unknown names, module-less bindings, strings in arithmetic, %, not, @, ~). Inputs inside the listed defect classes (round; remquo; ilogb or abs-of-integers "
+    "under a division) are produced only by the findings stream. A case is non-trivial when it is a documented expression containing at least one "
+    "function call; distinct = distinct (backend, expression)."
+)
+TRUSTED_BASE = [
+    "the translator tools/props/c12.py (python ast on cpp_functions.py / utils.py / ast_to_cpp_translator.py, README bullet) and its reading of the eval scope "
+    "(parameters of visit_Call, vars() of the imported module, python's builtins); the generated rows are compared with functions_to_replace at run time",
+    "hand models of find_known_functions.visit_Call, visit_function_ast, visit_BinOp, visit_special_BinOp, visit_UnaryOp, most_accurate_type (Model.lean) tied to the "
+    "code by the correspondence streams of this run (text, declared type and added include files of the generated C++)",
+    "MathFn / meaningPy / meaningCpp / MathFn.params / cppRet: my reading of ISO C++ <cmath> (which name is which function, which header, signatures, result types); "
+    "checked against g++ 12 + glibc by compiling every emitted expression with exactly the includes the translator added and comparing values",
+    "parseCpp (Lean) reads the emitted text back; parse(render t) = t is tested on every model output, not proved",
+    "numerical agreement of libm with python's math module (tolerance 1e-9 relative) and the C definitions used where python has no such function "
+    "(round half away from zero, rint/nearbyint half to even, ilogb, scalbn, fdim, fma by exact rational arithmetic)",
+    "func_adl / qastle are bypassed: the query AST is built with ast.parse in the form qastle delivers; the mock loop variable (struct Obj) stands for the EDM object",
+]
+ASSUMPTIONS = [
+    "arguments of math functions are int- or double-typed values: with float-typed arguments C++ selects the single-precision overloads, which is outside the abstraction",
+    "int -> double conversions are exact (|n| < 2^53); the EDM accessors are pure",
+    "namesake means the <cmath> function of that name (the README says the functions are pulled from cmath): round is C's round (half away from zero), not python's",
+    "arithmetic meaning is compared symbolically (free term algebra over MathFn and + - * fdiv idiv ...): the theorems hold for every interpretation of those symbols",
+]
+LEVEL_TEXT = (
+    "Machine-checked proof (Lean 4). Over the table regenerated from the source on every run: every documented function is a key, no key is assigned twice, every row "
+    "names the C++ function that is the namesake of its python name, pulls in <cmath>, is declared double and usable by most_accurate_type; every documented name "
+    "except round is resolved (through python's eval rule) to a namesake row. For every table, environment and expression of unbounded size: the resolution rule, call "
+    "emission, inclusion of the headers of every called function, success and arithmetic type of every accepted expression, the exact cause of each refusal; and for "
+    "every expression in the stated scope the emitted C++ term denotes, under the C++ typing rules, the same value as the query under python numerics with every function "
+    "read by its documented name. Four counterexample theorems (round, remquo, ilogb/2, abs(int)/2) mark where the full statement is false of the code."
+)
+LEVEL_NOTE = (
+    "Theorem: table facts (all rows), resolver/emission facts (all expressions), namesake semantics for expressions with int/double operands, + - * / **, unary + -, and "
+    "every documented function except round, remquo, ilogb, abs-of-integers (defect exclusions, each with a counterexample theorem and a listed finding). Sampled only: "
+    "float-typed operands, % and not (accepted, judged by the Spec on the implementation), and the numeric values (libm is trusted). The hand model's agreement with the "
+    "python is checked by differential execution on three backends, not proved. Trusted: Lean kernel (axioms audited), translator, harness, my reading of <cmath>."
+)
+TECHNIQUE = "Lean 4 theorems over tables regenerated from the source (decide) and over a hand model (induction) + correspondence check against the real pipeline + g++ value oracle"
+DESIGN_REF = "DESIGN.md §4 C12"
